@@ -388,6 +388,12 @@ def exec_set_case(case):
 
 
 # ------------------------------------------------------------------------------------------------ maps
+class _Mod3Type(object):
+    @staticmethod
+    def serialize(key, protocol_version):
+        return bytes([key % 3])
+
+
 def map_configs():
     from cassandra.util import OrderedMap, OrderedMapSerializedKey
     from cassandra import cqltypes as T
@@ -403,7 +409,9 @@ def map_configs():
         'pickle.list': (lambda: OrderedMap(), tups, lambda x: list(x)),
         'pickle.dict': (lambda: OrderedMap(), dicts, lambda x: dict(x)),
         'cql.int': (lambda: OrderedMapSerializedKey(T.Int32Type, 4), list(range(6)), lambda x: x),
-        'cql.boolean': (lambda: OrderedMapSerializedKey(T.BooleanType, 4), list(range(5)), lambda x: x),
+        'cql.tinyint': (lambda: OrderedMapSerializedKey(T.ByteType, 4), list(range(5)), lambda x: x),
+        # a serializer that identifies different keys (k and k+3): 'keys are identified by their encoding'
+        'cql.mod3': (lambda: OrderedMapSerializedKey(_Mod3Type, 4), list(range(6)), lambda x: x),
         'cql.text': (lambda: OrderedMapSerializedKey(T.UTF8Type, 4), ['', 'a', 'b', 'ab', u'\xe9', 'A'], lambda x: x),
         'cql.list': (lambda: OrderedMapSerializedKey(lt, 4), tups, lambda x: list(x)),
         'cql.map': (lambda: OrderedMapSerializedKey(mt, 4), dicts, lambda x: dict(x)),
@@ -662,8 +670,8 @@ def run(ctx):
             cases.append(gen_map_case(ctx.rng, cname, len(cfgs[cname][1]), 40 if ctx.rng.random() < 0.7 else 8))
     ctx.rule = ('random operation sequences (1..40 operations after a constructor, every operation of the vocabulary weighted) over '
                 '5 element domains for SortedSet (ints, tuples, unhashable lists; frozensets and nested sortedsets = partial order) '
-                'and 10 key/serializer configurations for OrderedMap / OrderedMapSerializedKey (pickle: int, tuple, list, dict keys; '
-                'CQL: int, boolean (non-injective), text, list, map, set keys); result AND full state compared after every operation; '
+                'and 11 key/serializer configurations for OrderedMap / OrderedMapSerializedKey (pickle: int, tuple, list, dict keys; '
+                'CQL: int, tinyint, text, list, map, set keys and a non-injective serializer k -> k mod 3); result AND full state compared after every operation; '
                 'non-trivial = distinct sequence with at least 3 operations')
     ctx.exhaustive = False
     terms, meta = [], []
